@@ -68,9 +68,20 @@ func (v *idTokenVerifier) verifyAudience(token *oidc.IDToken, claims map[string]
 			// as per spec `aud` can be either a string or a list of strings
 			switch audienceClaimValueType := audienceClaimValue.(type) {
 			case []interface{}:
+				for _, aud := range audienceClaimValueType {
+					if _, ok := aud.(string); !ok {
+						return false, fmt.Errorf("audience claim %s holds unsupported type %T",
+							audienceClaim, aud)
+					}
+				}
 				token.Audience = v.interfaceSliceToString(audienceClaimValue)
 			case interface{}:
-				token.Audience = []string{audienceClaimValue.(string)}
+				audienceClaimString, ok := audienceClaimValue.(string)
+				if !ok {
+					return false, fmt.Errorf("audience claim %s holds unsupported type %T",
+						audienceClaim, audienceClaimValueType)
+				}
+				token.Audience = []string{audienceClaimString}
 			default:
 				return false, fmt.Errorf("audience claim %s holds unsupported type %T",
 					audienceClaim, audienceClaimValueType)
